@@ -1,5 +1,5 @@
 (* C10 The static-route shortcut is unobservable. *)
-Require Import Base Regex Route Tree Router RouterProofs RouterInv.
+Require Import Base Regex Route Tree Router RouterProofs RouterInv Parser GoodParsed.
 
 (* FULL STATEMENT. For every router state reachable from the empty router by any history of
    successful registrations and Headers() calls, every method, request path and header set:
@@ -14,6 +14,23 @@ Theorem C10_unobservable : forall compile (good : list elem -> Prop),
   (forall es s, good es -> In (EIdent s) es -> s <> [] /\ slash_free s) ->
   forall st m path hdrs, reachable compile good st -> serve st m path hdrs = serve_tree st m path hdrs.
 Proof. intros compile good G0 Inj Gi. exact (unobservable compile good G0 Inj Gi). Qed.
+
+(* the same over histories that register what the route parser returned - no hypothesis left *)
+Inductive reachable_parsed (compile : str -> option re) : rstate -> Prop :=
+| rp_init : reachable_parsed compile rinit
+| rp_register st ms s r st' : reachable_parsed compile st -> parse s = Some r ->
+    register compile st ms r = Some st' -> reachable_parsed compile st'
+| rp_headers st rid h : reachable_parsed compile st -> reachable_parsed compile (set_headers st rid h).
+
+Theorem C10_unobservable_parsed : forall compile st m path hdrs,
+  reachable_parsed compile st -> serve st m path hdrs = serve_tree st m path hdrs.
+Proof.
+  intros compile st m path hdrs R. apply (unobservable compile pgood pgood_nil pgood_inj pgood_ident).
+  induction R as [|st ms s r st' _ IH P Reg|st rid h _ IH].
+  - apply reach_init.
+  - eapply reach_register; [exact IH | exact (parsed_good s r P) | exact Reg].
+  - apply reach_headers. exact IH.
+Qed.
 
 (* the invariant it rests on, and its preservation *)
 Theorem C10_invariant : forall compile (good : list elem -> Prop),
@@ -65,6 +82,7 @@ Proof.
   - vm_compute in E. inversion E. split; vm_compute; reflexivity.
 Qed.
 
+Redirect "assum/C10.6" Print Assumptions C10_unobservable_parsed.
 Redirect "assum/C10.1" Print Assumptions C10_unobservable.
 Redirect "assum/C10.2" Print Assumptions C10_invariant.
 Redirect "assum/C10.3" Print Assumptions C10_miss_is_tree.
